@@ -10,6 +10,7 @@ Anything of an unexpected shape is emitted as a calc name starting with "REFUSED
 know, so `recipes_match_psabi` (a kernel-evaluated table walk) stops being provable.
 """
 import ast, inspect, textwrap
+import calcfns
 
 
 def lean_str(s):
@@ -45,11 +46,11 @@ def generate(repo):
                       and isinstance(v.bytesize, int) and isinstance(v.has_addend, bool) and inspect.isfunction(v.calc_func))
                 if ok:
                     fn = v.calc_func
-                    nm = fn.__name__.lstrip('_')
+                    # named by the formula it computes on sample points (tools/gen/calcfns.py), not by its Python name
+                    nm = calcfns.canonical_name(fn) or ('unrecognised ' + fn.__name__)
                     params = list(inspect.signature(fn).parameters)
                     dflt = inspect.signature(fn).parameters['addend'].default if 'addend' in params else None
-                    ok = (nm in T3_NAMES and getattr(R, fn.__name__, None) is fn
-                          and params == ['value', 'sym_value', 'offset', 'addend'] and dflt == 0)
+                    ok = (nm in T3_NAMES and params == ['value', 'sym_value', 'offset', 'addend'] and dflt == 0)
             except Exception:
                 ok = False
             if ok:
